@@ -96,6 +96,11 @@ pub fn regression(ctx: &Ctx, col: &Collector) {
         let r = crate::runner::guarded(|| replay(ctx, &kind, &v["case"], &scratch));
         col.class("regression-replays");
         if let Err(f) = r {
+            if f.signature.starts_with("replay-format") || f.signature == "replay-unsupported" || f.signature == "infra" {
+                // a stored case written by an older version of the harness: not a verdict
+                col.note(format!("regression replay {} skipped: {}", p.display(), f.message));
+                continue;
+            }
             if col.is_known(&f.signature) {
                 col.known_hit(&f.signature, &f.message);
             } else {
